@@ -36,6 +36,13 @@ func (t *Writer) Emit(ev map[string]interface{}) {
 	t.mu.Unlock()
 }
 
+// Flush pushes buffered events to the file (used before a watchdog exit).
+func (t *Writer) Flush() {
+	t.mu.Lock()
+	t.w.Flush()
+	t.mu.Unlock()
+}
+
 func (t *Writer) Close() error {
 	t.mu.Lock()
 	defer t.mu.Unlock()
